@@ -7,6 +7,7 @@ import (
 	"errors"
 	"fmt"
 	"math"
+	"sort"
 	"strconv"
 	"time"
 
@@ -622,6 +623,15 @@ func buildPaymentFromBatchData(dbPayment sqlc.PaymentAndIntent,
 		}
 		attempts = append(attempts, *attempt)
 	}
+
+	// The query hands out the attempts by attempt time. Report them by
+	// attempt ID like the KV store does, so that the HTLC list and
+	// everything that walks it (e.g. TerminalInfo) gives the same answer
+	// on both backends even if two attempts carry equal or out of order
+	// timestamps.
+	sort.SliceStable(attempts, func(i, j int) bool {
+		return attempts[i].AttemptID < attempts[j].AttemptID
+	})
 
 	// Set the failure reason if present.
 	//
